@@ -184,6 +184,12 @@ pub(crate) struct SolverState {
 
     /// Activity score per package.
     name_activity: Vec<f32>,
+
+    /// The decision level on top of which the current [`Solver::run_sat`]
+    /// invocation runs. The decisions up to this level are the solution
+    /// completed by earlier invocations (the hard requirements and the soft
+    /// requirements accepted so far); conflict analysis must not undo them.
+    run_sat_starting_level: u32,
 }
 
 impl<D: DependencyProvider> Solver<D, NowOrNeverRuntime> {
@@ -408,6 +414,7 @@ impl<D: DependencyProvider, RT: AsyncRuntime> Solver<D, RT> {
             .unwrap_or(0);
 
         let mut level = starting_level;
+        self.state.run_sat_starting_level = starting_level;
 
         loop {
             if level == starting_level {
@@ -1455,8 +1462,12 @@ impl<D: DependencyProvider, RT: AsyncRuntime> Solver<D, RT> {
             );
         }
 
-        // Should revert at most to the root level
-        let target_level = back_track_to.max(1);
+        // Should revert at most to the root level, and never into the solution
+        // that was completed before the current `run_sat` invocation started:
+        // everything above it is undone and redone relative to that level.
+        let target_level = back_track_to
+            .max(1)
+            .max(self.state.run_sat_starting_level);
         self.state.decision_tracker.undo_until(target_level);
 
         self.decay_activity_scores();
